@@ -239,6 +239,7 @@ struct ReplyWorld : World {
 		static const int caps[] = {5, 32, 4096, 4096};
 		p.set("chancap", r.pick(caps));
 		p.set("sync", r.chance(1, 3));
+		p.set("big", r.chance(1, 3));      // payloads up to 250 bytes: the 256 byte write queue has to grow while earlier messages are still pending
 		int nops = (int) r.range(1, tier ? 90 : 45); bool iof = r.chance(1, 2), af = r.chance(1, 3);
 		for (int i = 0; i < nops; ++i) {
 			Op op; unsigned k = (unsigned) r.below(16);
@@ -318,7 +319,7 @@ struct ReplyWorld : World {
 		ConnCtx C; C.log = &log; C.st = &st; CCp = &C;
 		unsigned idlen = C.idlen = (unsigned) std::min<int64_t>(std::max<int64_t>(p.get("idlen", 2), 1), 8);
 		size_t chancap = (size_t) std::min<int64_t>(std::max<int64_t>(p.get("chancap", 4096), 1), 1 << 20);
-		bool use_sync = p.get("sync") != 0;
+		bool use_sync = p.get("sync") != 0, big = p.get("big") != 0;
 		int ab = simio::new_chan(chancap), ba = simio::new_chan(chancap);
 		C.peer[0].name = "A"; C.peer[1].name = "B";
 		for (int i = 0; i < 2; ++i) {
@@ -382,7 +383,7 @@ struct ReplyWorld : World {
 				if (P.sent.size() >= 10) break;
 				CReq q; q.serial = serial++; q.behaviour = (int) ((op.b >> 8) & 0xff) % 7; q.awaited = (op.b >> 16) & 1;
 				q.payload = {0x08, 0x00}; for (int k = 0; k < 4; ++k) q.payload.push_back((uint8_t) (q.serial >> (8 * k)));
-				size_t extra = (size_t) op.c % 40; for (size_t k = 0; k < extra; ++k) q.payload.push_back((uint8_t) (op.a >> (k % 8)));
+				size_t extra = big ? (size_t) ((uint64_t) op.a >> 5) % 250 : (size_t) op.c % 40; for (size_t k = 0; k < extra; ++k) q.payload.push_back((uint8_t) (op.a >> (k % 8)));
 				P.sent.push_back(q); CReq &Q = P.sent.back(); size_t idx = P.sent.size() - 1;
 				bool fired = false; int ar = 0;
 				{ Sut s(failn);
@@ -402,7 +403,7 @@ struct ReplyWorld : World {
 				  fired = g.fired; }
 				check_pending();
 				if (fired) { st.hit("fault:allocfail_in_request"); Q.faulted = true; }
-				if (Q.push_failed && !fired) fail("push-refused", "%s could not send request r%u without any fault (await %d)", P.name, Q.serial, ar);
+				if (Q.push_failed && !fired) st.hit("probe:send_refused_without_fault");    // refusing is safe; the statement does not demand progress here
 				log.ev("REQUEST %s r%u id=%llx behaviour=%d %s payload=%zu -> %s", P.name, Q.serial, (unsigned long long) Q.cid, Q.behaviour, Q.awaited ? "awaited" : "one-way", Q.payload.size(), Q.sent ? "sent" : "failed");
 				if (getenv("VERIF_TRACE_Q")) log.ev("    write queue of %s: off=%zu len=%zu max=%zu done=%zu scratch=%zu ctx=%zu", P.name, P.srm->_wd.off, P.srm->_wd.len, P.srm->_wd.max, P.srm->_wd._state.done, P.srm->_wd._state.scratch, (size_t) P.srm->_wd._state._ctx);
 				if (Q.awaited && Q.sent && !Q.cid) fail("no-id", "awaited request r%u was sent without an id", Q.serial);
@@ -431,7 +432,7 @@ struct ReplyWorld : World {
 			st.state(780 + op.kind, (int) std::min<size_t>(C.peer[0].sent.size() + C.peer[1].sent.size(), 3) * 4 + (op.fault ? 2 : 0) + side, outcome);
 		}
 		// drain without faults: deliver, serve, answer what was deferred, flush — until nothing moves
-		for (int round = 0; round < 400; ++round) {
+		for (int round = 0; round < 100000; ++round) {
 			uint64_t before = simio::S.readv_calls * 0 + simio::chan(ab)->read + simio::chan(ba)->read + simio::chan(ab)->written + simio::chan(ba)->written;
 			for (int s = 0; s < 2; ++s) {
 				simio::deliver(C.peer[s].wchan, 1 << 20);
